@@ -225,3 +225,33 @@ func VScaleDown(S, K int) {
 		}
 	}
 }
+
+// VTransfer: lemma for transferTarget, the single place where a placement made by relief or
+// scale-down is added to the destination's running load ("the load that shard reported plus
+// everything placed on it during the cycle"): after moving h from one shard to another the
+// destination's planning load is its previous load plus the moved target's series / total series,
+// the source copy is marked in_transfer and the destination copy is an equal-valued normal copy.
+func VTransfer() {
+	infos, _ := vShardInfos(2, 1, true)
+	from, to := infos[0], infos[1]
+	st, ok := from.scraping[1]
+	if !ok {
+		return
+	}
+	zzv.Assume(st.TargetState == target.StateNormal)
+	before := *st
+	head0, proc0 := to.runtime.HeadSeries, to.runtime.ProcessSeries
+	_, had := to.scraping[1]
+	crashed := zzv.Crashed(func() { transferTarget(from, to, 1) })
+	zzv.Assert("C01.c.transfer.nocrash", !crashed)
+	if crashed {
+		return
+	}
+	zzv.Cover("transfer.done")
+	zzv.Assert("C04.transfer.accounting", zzv.And(to.runtime.HeadSeries == head0+before.Series, to.runtime.ProcessSeries == proc0+before.TotalSeries))
+	src, still := from.scraping[1]
+	dst, now := to.scraping[1]
+	zzv.Assert("C05.i.transfer.marks", still && now && src.TargetState == target.StateInTransfer && dst.TargetState == target.StateNormal)
+	zzv.Assert("C05.i.transfer.copy", now && zzv.And(dst.Series == before.Series, dst.TotalSeries == before.TotalSeries, dst.Health == before.Health, dst.ScrapeTimes == before.ScrapeTimes) && dst != src)
+	_ = had
+}
